@@ -86,6 +86,11 @@ def gen_ghost(rng):
         # proper packets as the implant sends them: one, or several back to back (login + heartbeat), possibly followed by junk
         out = b"".join(ghost_frame(rng) for _ in range(rng.choice([1, 1, 2, 2, 3, 5])))
         return out + bytes(rng.getrandbits(8) for _ in range(rng.choice([0, 0, 0, 3, 20])))
+    if rng.random() < 0.25:
+        # a header whose declared sizes are at or next to every boundary (0, inside the header, exact, one off, huge)
+        body = bytes(rng.getrandbits(8) for _ in range(rng.choice([0, 1, 7, 40])))
+        edge = lambda: rng.choice([0, 1, 4, 12, 13, 14, 13 + len(body), 12 + len(body), 14 + len(body), 0x7FFFFFFF, 0x80000000, 0xFFFFFFFF])
+        return GHOST_MAGIC + struct.pack("<II", edge(), edge()) + body
     return GHOST_MAGIC + bytes(rng.getrandbits(8) for _ in range(rng.choice([0, 1, 8, 9, 100, 1400, rng.randrange(0, 1401), rng.randrange(0, 1401), rng.randrange(1401, 3900)])))
 
 
